@@ -17,24 +17,24 @@ import (
 
 // Msg is one line of the worker -> orchestrator protocol.
 type Msg struct {
-	T     string `json:"t"` // start | viol | known | summary | harness
-	Run   int    `json:"run,omitempty"`
-	Seed  uint64 `json:"seed,omitempty"`
-	Path  string `json:"path,omitempty"`
+	T      string `json:"t"` // start | viol | known | summary | harness
+	Run    int    `json:"run,omitempty"`
+	Seed   uint64 `json:"seed,omitempty"`
+	Path   string `json:"path,omitempty"`
 	Clause string `json:"clause,omitempty"`
-	What  string `json:"what,omitempty"`
-	Slug  string `json:"slug,omitempty"`
-	Err   string `json:"err,omitempty"`
+	What   string `json:"what,omitempty"`
+	Slug   string `json:"slug,omitempty"`
+	Err    string `json:"err,omitempty"`
 
-	Runs       int              `json:"runs,omitempty"`
-	Events     int64            `json:"events,omitempty"`
-	Stats      map[string]int64 `json:"stats,omitempty"`
-	Sigs       []uint64         `json:"sigs,omitempty"`
-	Samples    []interface{}    `json:"samples,omitempty"`
-	EvHashes   map[string]string `json:"evh,omitempty"`
-	Seconds    float64          `json:"seconds,omitempty"`
-	Known      map[string]int   `json:"known,omitempty"`
-	KnownWhat  map[string]string `json:"known_what,omitempty"`
+	Runs      int               `json:"runs,omitempty"`
+	Events    int64             `json:"events,omitempty"`
+	Stats     map[string]int64  `json:"stats,omitempty"`
+	Sigs      []uint64          `json:"sigs,omitempty"`
+	Samples   []interface{}     `json:"samples,omitempty"`
+	EvHashes  map[string]string `json:"evh,omitempty"`
+	Seconds   float64           `json:"seconds,omitempty"`
+	Known     map[string]int    `json:"known,omitempty"`
+	KnownWhat map[string]string `json:"known_what,omitempty"`
 }
 
 // WorkerArgs configures a worker process.
